@@ -168,6 +168,8 @@ Fillers == {
   F("doc_own", "lc", "\n/** d1 */\n"),
   F("blk_ml", "lc", "\n/*\n  m1\n  m2\n*/\n"),
   F("blk_eol", "lc", " /* c1 */\n"),
+  F("blk_ml_tight", "lc", "\n/* m1\n   m2 */\n"),
+  F("blk_ml_eol", "lc", " /* m1\n   m2 */\n"),
   F("blk_then_eol", "lc", " /* c1 */ # c2\n"),
   F("own_blk_then_eol", "lc", "\n/* c1 */ # c2\n"),
   F("inline", "ic", " /* c1 */ "),
